@@ -153,3 +153,114 @@ pub fn explore(w: &World, tier: Tier, chk: &Check) -> SchedResult {
     chk.sample(json!({"threads": 3, "program": "update_raw(x_t); predict(P); fill_tags", "schedule": il3[777], "interleavings_per_assignment": il3.len()}));
     SchedResult { schedules, assignments }
 }
+
+/// Free-running pass (no baton): the same thread bodies hammer shared predictors concurrently.
+/// Meant to run in a ThreadSanitizer build — a cooperative scheduler's hand-offs are
+/// happens-before edges that would blind the race detector, so this pass is separate. Returns the
+/// number of (thread, iteration) observations compared; mismatches are reported as violations.
+pub fn free_run(w: &World, chk: &Check, iterations: usize) -> u64 {
+    let tagging: Vec<usize> = w.preds.iter().enumerate().filter(|(_, p)| p.predict_tags).map(|(i, _)| i).collect();
+    let mut programs: Vec<Vec<Op>> = vec![];
+    for (k, &p) in tagging.iter().enumerate() {
+        for x in 0..3usize {
+            programs.push(vec![Op::UpRaw(x), Op::Predict(p), Op::Fill, Op::UpRaw((x + k + 1) % 3), Op::Predict(p), Op::Fill]);
+        }
+    }
+    // plus threads that use a tag-less predictor and filters on the same sentences
+    programs.push(vec![Op::UpRaw(0), Op::Predict(0), Op::Filter(0), Op::UpRaw(2), Op::Predict(0), Op::Filter(2)]);
+    programs.push(vec![Op::UpTok(1), Op::Predict(1), Op::Fill, Op::UpPart(1), Op::Predict(3), Op::Fill]);
+    let expected: Vec<Result<Obs, String>> = programs.iter().map(|p| sequential(w, p)).collect();
+    let compared = std::sync::atomic::AtomicU64::new(0);
+    std::thread::scope(|sc| {
+        for (t, prog) in programs.iter().enumerate() {
+            let expected = &expected;
+            let compared = &compared;
+            sc.spawn(move || {
+                let mut s = Sentence::default();
+                for it in 0..iterations {
+                    let mut failed = None;
+                    for op in prog {
+                        if let Err(p) = w.apply(&mut s, op) {
+                            failed = Some(p);
+                            break;
+                        }
+                    }
+                    let got = match failed {
+                        Some(p) => Err(p),
+                        None => Ok(observe(&s, false)),
+                    };
+                    compared.fetch_add(1, std::sync::atomic::Ordering::Relaxed);
+                    if got != expected[t] {
+                        let names: Vec<String> = prog.iter().map(|o| w.op_name(o)).collect();
+                        chk.violation(
+                            format!("free-running-differs thread={t} program=[{}]", names.join(";")),
+                            format!("iteration {it}: thread {t} observed {got:?} while other threads used the same predictors; sequentially {:?}", expected[t]),
+                            json!({"mode": "free", "noreplay": true}),
+                        );
+                        return;
+                    }
+                }
+            });
+        }
+    });
+    compared.into_inner()
+}
+
+/// Cold-start pass: a NEVER-USED predictor is shared by threads that are released together by a
+/// barrier; each thread's observation must equal the one obtained from a separate, warm predictor.
+/// This is randomised stress (sampling), NOT exhaustive exploration: it exists because call-level
+/// interleavings cannot reach the inside of a call, where lazily initialised shared state
+/// (atomics, OnceCell, ...) would race. A mismatch it observes is real; its silence proves nothing.
+pub fn cold_start(chk: &Check, rounds: usize, threads: usize) -> u64 {
+    use vaporetto::Predictor;
+    let specs = [(crate::bfs::model_tags2(), false), (crate::bfs::model_tags1(), true)];
+    let texts = ["abab", "a", "あaあa𠀋b", "ab a", "ba", "aab", "あa", "b"];
+    let mk = |spec: &crate::mirror::ModelSpec, store: bool| -> Predictor {
+        let mut p = Predictor::new(spec.to_model().unwrap_or_else(|e| machinery_error(&e)), true).unwrap_or_else(|e| machinery_error(&e.to_string()));
+        p.store_tag_scores(store);
+        p
+    };
+    let run = |p: &Predictor, t: &str, store: bool| -> Result<Obs, String> {
+        guard(|| {
+            let mut s = Sentence::from_raw(t.to_string()).unwrap();
+            p.predict(&mut s);
+            s.fill_tags();
+            observe(&s, store)
+        })
+    };
+    let mut compared = 0u64;
+    for (spec, store) in &specs {
+        let warm = mk(spec, *store);
+        let expected: Vec<Result<Obs, String>> = texts.iter().map(|t| run(&warm, t, *store)).collect();
+        for round in 0..rounds {
+            let cold = mk(spec, *store);
+            let barrier = std::sync::Barrier::new(threads);
+            let results: Vec<Result<Obs, String>> = std::thread::scope(|sc| {
+                let hs: Vec<_> = (0..threads)
+                    .map(|t| {
+                        let (cold, barrier) = (&cold, &barrier);
+                        let text = texts[(t + round) % texts.len()];
+                        sc.spawn(move || {
+                            barrier.wait();
+                            run(cold, text, *store)
+                        })
+                    })
+                    .collect();
+                hs.into_iter().map(|h| h.join().unwrap_or_else(|_| Err("thread died".into()))).collect()
+            });
+            for (t, got) in results.iter().enumerate() {
+                compared += 1;
+                let want = &expected[(t + round) % texts.len()];
+                if got != want {
+                    chk.violation(
+                        format!("cold-start-differs store={}", *store as u8),
+                        format!("round {round}: thread {t} sharing a never-used predictor with {} other threads observed {got:?}; a warm predictor gives {want:?}", threads - 1),
+                        json!({"mode": "cold-start", "noreplay": true, "round": round}),
+                    );
+                    return compared;
+                }
+            }
+        }
+    }
+    compared
+}
